@@ -64,6 +64,11 @@ class Facts:
                 self.submits.append((i, e[1], e[2]))
             elif k == 'fault' and e[1] in ('raise', 'die'):
                 self.stops.setdefault(e[2], i)
+            elif k == 'fault' and e[1] == 'load-io':
+                # a cached result whose load got a read error: the task fails without executing (a failed
+                # finish, like a run() that raised); its dependents may be started and cannot read it
+                if e[2] in key_node:
+                    self.stops.setdefault(key_node[e[2]], i)
             elif k == 'kill':
                 if e[4] is not None and e[3] in ('run', 'save', 'pre', 'boot'):
                     self.stops.setdefault(e[4], i)
